@@ -79,6 +79,9 @@ ASSUMPTIONS = [
     "window (0.5 probe interval) + suspicion_timeout; with suspicion timeouts of 5-30 % of the probe interval (generated in "
     "40 % of the healthy runs) a round trip longer than that budget is declared DEAD by design on any tree - a configuration "
     "whose failure detector is faster than its network, not a healthy network in the sense of the statement (weaker reading)",
+    "a node 'reports' a member through get_member_state() and through the lists alive_members / suspected_members / "
+    "dead_members; both are read after every delivery and must agree (a crashed member that stays in alive_members is "
+    "still reported ALIVE)",
     "'stops reporting it ALIVE' is satisfied by SUSPECT as well as DEAD (weaker reading)",
     "the statement does not fix the number of probe rounds; the deadline used is derived from the documented mechanism "
     "only: last contact + I + k(threshold) * max(I/2, min_std) + 3 probe intervals, where I = (2N-3) probe intervals + "
@@ -94,7 +97,7 @@ ASSUMPTIONS = [
     "phi monotonicity is judged with a relative tolerance of 1e-9 (libm erfc/log10 are not guaranteed monotone to the ulp)",
     "a restarted member (flap class) starts its protocol again with start(), as a restarted process would",
 ]
-EXPECTED_PROBES = ["probe.short_suspicion_timeout_with_late_ack", "probe.gossip_stale_alive_after_dead_ignored", "probe.gossip_higher_incarnation_revived_dead",
+EXPECTED_PROBES = ["probe.alive_to_dead_directly_by_gossip", "probe.short_suspicion_timeout_with_late_ack", "probe.gossip_stale_alive_after_dead_ignored", "probe.gossip_higher_incarnation_revived_dead",
                    "probe.gossip_dead_verdict_applied", "probe.gossip_update_about_receiver", "probe.gossip_reordered_by_network",
                    "probe.late_ack_revived_member", "probe.live_member_suspected", "probe.suspect_revived", "probe.indirect_path_taken",
                    "probe.victim_declared_dead", "probe.dead_learned_by_gossip", "probe.victim_only_suspect_at_deadline",
@@ -496,7 +499,8 @@ def run(sc):
           "same_target_probed_twice_in_a_row": 0, "phi_samples": 0, "suspected_on_missed_ack": 0,
           "never_heard_member_suspected": 0, "late_ack_revived_member": 0, "gossip_stale_alive_after_dead_ignored": 0,
           "gossip_higher_incarnation_revived_dead": 0, "gossip_dead_verdict_applied": 0, "gossip_update_about_receiver": 0,
-          "gossip_reordered_by_network": 0, "short_suspicion_timeout_with_late_ack": 0}
+          "gossip_reordered_by_network": 0, "short_suspicion_timeout_with_late_ack": 0, "lists_polled": 0,
+          "alive_to_dead_directly_by_gossip": 0}
     last_probe = {}
     past_deadline_checked = [False]
     phi_track = {}  # observer -> (heartbeat count, last phi, last t) for the victim's detector after the crash
@@ -597,11 +601,30 @@ def run(sc):
                     pr["late_ack_revived_member"] = 1
                     if sc["suspicion_timeout"] < 0.5 * p:
                         pr["short_suspicion_timeout_with_late_ack"] = 1
+            if st == "D" and old == "A" and ev.event_type in ("MembershipPing", "MembershipAck"):
+                pr["alive_to_dead_directly_by_gossip"] = 1
             if st == "D" and m == vname:
                 pr["victim_declared_dead"] = 1
                 if ev.event_type != "MembershipSuspicionTimeout":
                     pr["dead_learned_by_gossip"] = 1
             vx[m] = (st, info.incarnation)
+
+    def views_agree(x, ev, now):
+        """The reporting lists (alive_members / suspected_members / dead_members) and get_member_state() are two faces of
+        one view: polled after every delivery (which also keeps any cached index warm) and required to agree."""
+        lists = {"A": x.alive_members, "S": x.suspected_members, "D": x.dead_members}
+        for letter, names in lists.items():
+            for m in names:
+                st = x.get_member_state(m)
+                if st is None or _ST[st] != letter:
+                    raise Violation(f"C13/views-agree/MembershipProtocol/{_st_name(letter)}-list-holds-{_st_name(_ST[st]) if st else 'unknown'}-member",
+                                    f"{x.name}.{ {'A': 'alive_members', 'S': 'suspected_members', 'D': 'dead_members'}[letter] } contains {m} "
+                                    f"but get_member_state({m!r}) is {st.name if st else None} (after {ev.event_type} at t={now:.6f})")
+        if sum(len(v) for v in lists.values()) != len(x._members):
+            missing = [m for m in x._members if not any(m in v for v in lists.values())]
+            raise Violation("C13/views-agree/MembershipProtocol/member-in-no-list",
+                            f"{x.name}: members {missing} appear in none of alive/suspected/dead_members (after {ev.event_type} at t={now:.6f})")
+        pr["lists_polled"] += 1
 
     def completeness(x, now):
         info = x._members[vname]
@@ -631,6 +654,7 @@ def run(sc):
         else:
             sim_dead.clear()
         check_node(x, ev, now)
+        views_agree(x, ev, now)
         if deadline is not None and now > deadline:
             if not past_deadline_checked[0]:
                 past_deadline_checked[0] = True
@@ -682,7 +706,8 @@ def run(sc):
         for x in nodes:
             if x.name != vname and x._members[vname].detector.last_heartbeat is None:
                 pr["never_heard_pair"] = 1
-    counters = {f"probe.{k}": v for k, v in pr.items() if k != "phi_samples"}
+    counters = {f"probe.{k}": v for k, v in pr.items() if k not in ("phi_samples", "lists_polled")}
+    counters["lists.polls"] = pr["lists_polled"]
     counters["probe.indirect_path_taken"] = int(any(x.stats.indirect_probes_sent > 0 for x in nodes))
     counters["phi.samples_in_cluster"] = pr["phi_samples"]
     counters.update(fd.counters())
